@@ -362,3 +362,14 @@ for _pid in ("C06", "C15", "C17", "C19"):
 CHECKS["C17"]["rule"] += " A third vesting type has no lockup and no vesting period (accounts sent from its pools start and end in the block of the send); two advances in twenty-five jump to the second of the pools' lock end."
 CHECKS["C11"]["rule"] += " Chains start at height 1, 2, 100 or 7654321; block steps from 1 ns and 1 ms."
 
+# ---------------------------------------------------------------- round 14: chain configuration
+for _pid in CHECKS:
+    CHECKS[_pid]["rule"] += " Chain configuration (DESIGN 3b): every second shard runs on a chain whose staking bond denomination is uatom (1 h unbonding, 25 % community tax, other x/auth and x/gov parameters)."
+for _pid in ("C05", "C10", "C11", "C12"):
+    CHECKS[_pid]["rule"] += " ABCI histories: the genesis draws a ChainCfg (bond denomination, unbonding time, community tax, withdraw-address switch, second validator, x/auth / x/gov / x/slashing parameters); proposals also change neighbouring modules' parameters through x/params."
+CHECKS["C02"]["rule"] += " The mint denomination is drawn among uc4e, uatom, uenergy and an IBC voucher."
+CHECKS["C09"]["rule"] += " One case in four has the bank's transfers switched off (by default or for the vesting denomination)."
+CHECKS["C15"]["rule"] += " Action governance_changes_auth_params (memo size 1-512, signature limit, size cost)."
+CHECKS["C19"]["rule"] += " One case in four funds the minter's module account with coins of the mint denomination."
+CHECKS["C20"]["rule"] += " Query state 3 may run a block and then let governance drop the finished periods from the schedule."
+
